@@ -77,7 +77,7 @@ def run_shard(ctx):
                 cands = [c for c in keys if units[c]['kind'] == units[a]['kind'] and c not in (a, b)]
                 batch.append(('twostep', (a, b, rng.choice(cands)), rng.choice(['1', '2.5', '1000', '3'])))
             else:
-                batch.append((rng.choice(['add', 'sub', 'mul', 'div', 'ratio']), rng.choice(same), (rng.choice(AMOUNTS[:5] + ['3']), rng.choice(['2', '4', '0.5', '10', '3']))))
+                batch.append((rng.choice(['add', 'sub', 'mul', 'div', 'ratio']), rng.choice(same), (rng.choice(AMOUNTS[:5] + ['3']), rng.choice(['2', '4', '0.5', '10', '3', '0', '1']))))
         # every case is evaluated under all four separator conventions
         per_sep = {}
         texts = {}
@@ -202,6 +202,8 @@ def judge(units, cls, p, amt, slot):
         elif cls == 'mul':
             want = x * y
         else:
+            if y == 0:
+                return None          # a quantity divided by 0 is not part of the statement
             want = x / y
     if k != 'unit':
         return 'expected %r %s, got %s' % (float(want), tgt, mon.describe(slot))
